@@ -8,8 +8,8 @@ The buffer is the `str` handed to `run()` (the data plus the `"\0"` sentinel `ma
 (`while buff[pos] in …: pos += 1`, `str.find`) are total functions by recursion on the remaining length;
 the mutually recursive walkers (`walk_here_statement`, `walk_command_complex`,
 `raw_walk_command_escaped_parsing`, `walk_dollar_expansion`, `process_scope` and its two loops) take a
-`fuel` that is decremented at every call and every loop iteration (`Err.fuel` when it runs out; the
-driver reports that explicitly, the correspondence run has never seen it with `fuelFor`).
+`fuel` that is decremented at every call and every loop iteration (`Err.fuel` when it runs out —
+`Pkgcore.C34.fuel_suffices` proves it never does with the `fuelFor` that `mainRun` uses).
 
 `str.isspace` / `str.isalnum` come from tables generated out of CPython (`Generated/C34Tables.lean`).
 The name predicates (`re.match` of the patterns built by `build_regex_string`) are parameters
